@@ -628,6 +628,14 @@ example : resolve [srcA, srcB] ⟨['a'], false⟩ = some srcA ∧ srcA.parseErro
 example : (scopeView .now .var [mA] 0).get ['-', 'p'] = none ∧
     (scopeView .now .var [mA] 0).get ['x'] = some ⟨0, ['x']⟩ ∧ isPrivate (norm ['_', 'p']) = true := by decide
 
+-- C12_namespace_assignment_shared: two users (namespaces `n` and `a`, one of them through a prefixed forward) denote
+-- the same member `$y` of module 0; and C12_with_after_load / _unknown hypotheses are met by `srcA`
+example : (scopeView .now .var [⟨['m'], [], [], [], [⟨⟨some ['p', '-'], .all⟩, 0⟩], [], []⟩, mA] 1).get ['p', '-', 'y'] = some ⟨0, ['y']⟩ ∧
+    (scopeView .now .var [⟨['m'], [], [], [], [⟨⟨some ['p', '-'], .all⟩, 0⟩], [], []⟩, mA] 0).get ['y'] = some ⟨0, ['y']⟩ ∧
+    ([(['n'], 1)] : List (Ident × Nat)).lookup ['n'] = some 1 ∧ ([(['a'], 0)] : List (Ident × Nat)).lookup ['a'] = some 0 := by decide
+example : resolve [srcA] ⟨['a'], false⟩ = some srcA ∧ findLoaded [mA] ['a'] = some 0 ∧
+    (([(['y'], 8)] : List (Ident × Val)).lookup ['y']).isSome = true := by decide
+
 -- forward view: prefix and show list naming the prefixed name
 example : (forwardedMap .spec .var ⟨some ['p', '-'], .allow [['p', '-', 'x']] []⟩ (scopeView .spec .var [mA] 0)).get ['p', '-', 'x']
       = some ⟨0, ['x']⟩ ∧
